@@ -667,3 +667,98 @@ def input_decides(rep, lib):
             else:
                 r.ok(key, "decided by bytes read", b.where(bb), nontrivial=False)
     return r
+
+
+# ------------------------------------------------------------------ C01-DIGITS
+
+def digits(rep, lib):
+    """Every digit read_digits takes from the input ends up in the number's text."""
+    r = rep.rule("C01-DIGITS", "Reader::read_digits: for each of the ten digits the byte is appended to the buffer "
+                 "exactly once and then consumed (never consumed without being appended, whatever the buffer already "
+                 "holds); any other byte and the end of input leave the loop without consuming anything", floor=3,
+                 analysis="A5 partial evaluation of one loop turn of read_digits over all byte values + EOF")
+    b = lib.bodies.get("reader::Reader::<R>::read_digits")
+    if b is None:
+        r.missing("Reader::read_digits")
+        return r
+    peeks = [c for c in b.calls if is_peek(c)]
+    if not peeks:
+        r.missing("peek() in read_digits")
+        return r
+    bad_digit, bad_other = [], []
+    for v in list(range(256)) + [None]:
+        ev = []
+
+        def model(c, av, envv, pe, v=v):
+            n = c.name or ""
+            if is_peek(c):
+                if ev and ev[-1] == "consumed":
+                    return (True, ("never",)) if False else (True, OK(NONE))   # second turn: pretend the input ends
+                return (True, OK(some(byte(v)) if v is not None else NONE))
+            if is_next(c):
+                ev.append("consumed")
+                return (True, OK(some(byte(v)) if v is not None else NONE))
+            if n.endswith("Vec::<T, A>::push") or n.endswith("Vec::<T>::push"):
+                x = pe._deref_all(envv, av[1]) if len(av) > 1 else None
+                ev.append(("push", x))
+                return (True, ("adt", 0, ()))
+            if n.endswith("::len") or n.endswith("::capacity") or n.endswith("::is_empty"):
+                return (True, None)          # the buffer's size is not known: both outcomes are explored
+            return None
+        try:
+            res = PE(b, model, eq_ok=common.derived_eq_ok(lib)).run()
+        except RuntimeError:
+            (bad_digit if v is not None and 0x30 <= v <= 0x39 else bad_other).append((v, "not evaluated"))
+            continue
+        pushes = [e for e in ev if e != "consumed"]
+        consumed = ev.count("consumed")
+        if v is not None and 0x30 <= v <= 0x39:
+            # on every explored path: consumed implies pushed; with forks (a size test) events of all paths are pooled,
+            # so: as many pushes of this byte as consumptions, at least one, and the push comes first
+            if consumed < 1 or len(pushes) != consumed or any(p[1] != ("i", v) for p in pushes) or \
+                    ev.index("consumed") < ev.index(pushes[0]) or res.forks:
+                bad_digit.append((v, "pushed %d time(s), consumed %d%s" % (
+                    len(pushes), consumed, ", depending on something else than the byte" if res.forks else "")))
+        else:
+            if consumed or pushes or any(x is None or x[0] != "adt" or x[1] != 0 for _, x in res.returns):
+                bad_other.append((v, "pushed %d, consumed %d" % (len(pushes), consumed)))
+    if bad_digit:
+        r.bad("read_digits[digits]", "digit %r: %s - a digit of the literal is lost or duplicated (%d of 10 digits)"
+              % (chr(bad_digit[0][0]), bad_digit[0][1], len(bad_digit)), b.where())
+    else:
+        r.ok("read_digits[digits]", "each digit appended once, then consumed", b.where())
+    if bad_other:
+        v = bad_other[0][0]
+        r.bad("read_digits[other]", "%s ends the run of digits but is %s" % (
+            "EOF" if v is None else "byte 0x%02X" % v, bad_other[0][1]), b.where())
+    else:
+        r.ok("read_digits[other]", "246 other byte values and EOF end the run untouched", b.where())
+    r.ok("read_digits[anchor]", "one peek decision", peeks[0].where(), nontrivial=False)
+    return r
+
+
+# ------------------------------------------------------------------ C16-IO-ORIGIN
+
+def io_origin(rep, lib, rid="C16-IO-ORIGIN"):
+    """An I/O error is what the operating system reported, never something the parser made up."""
+    r = rep.rule(rid, "no std::io::Error is constructed in the crate (io::Error::new / other / from(ErrorKind) / "
+                 "last_os_error): a JsonParserError::IoError - the one variant that ends the run under every "
+                 "--on-error policy - can only carry an error the reader received from the input", floor=0,
+                 analysis="A1 census of resolved callees over the lib crate")
+    hits = 0
+    for name, b in sorted(lib.bodies.items()):
+        if name.split(" as ")[0].lstrip("<").startswith(("build_docs::", "functions::proccess::")):
+            continue
+        for c in b.calls:
+            n = c.name or ""
+            full = c.full or ""
+            made = n in ("std::io::Error::new", "std::io::Error::other", "std::io::Error::last_os_error",
+                         "std::io::Error::from_raw_os_error") or \
+                ("std::io::Error" in full and "From<std::io::ErrorKind>" in full and n.endswith("::from"))
+            if made:
+                hits += 1
+                r.bad("%s#%s" % (name, n.rsplit("::", 1)[-1]), "an io::Error is made up here: handed to the parser's "
+                      "error type it is fatal under every policy (malformed input must stay recoverable), handed "
+                      "anywhere else it reports a failure that did not happen", c.where())
+    r.ok("census", "no constructed io::Error in %d bodies" % len(lib.bodies), "", nontrivial=False)
+    return r
